@@ -321,12 +321,15 @@ func gateMain(p MitigationParams) {
 	vrt.Window(false)
 	desc := fmt.Sprintf("replicas=%d feeds=%v unassigned=%v bump=%v", p.Replicas, picks, p.Unassigned, p.ConfigBump)
 	if p.CloseAt {
-		before := len(e.Cons.Events)
+		// An event the gate has already qualified may still be on its way to the consumer while Close() runs
+		// (the OnConsume oracle above checks that it IS qualified - an event released merely by the close would
+		// fail there); nothing may be delivered once Close() has returned.
 		e.Stream.Close(false)
+		before := len(e.Cons.Events)
 		vrt.Sleep(5 * interval)
 		vrt.Quiesce()
 		if len(e.Cons.Events) != before {
-			vrt.Failf("%s: %d waiting events were delivered by closing the stream", desc, len(e.Cons.Events)-before)
+			vrt.Failf("%s: %d waiting events were delivered after Close() had returned", desc, len(e.Cons.Events)-before)
 		}
 		if !c.Idle() {
 			vrt.Failf("%s: closing the stream did not release the event waiting at the gate", desc)
